@@ -14,8 +14,8 @@ pub static SCENARIO: Scenario = Scenario {
     level: "fault_enumeration",
     rule: "byzantine sender / torn delivery against all 24 entry points with valid keys. Enumerated completely: each of the 8 correct headers followed by base64url of every decoded length 0..=400 (zeros / ones / seeded random; without footer, with the expected footer, with a trailing dot); every string of 0..6 segments over {empty, valid b64, invalid b64, padded b64} and header+0..4 such segments; Key::<N>::try_from for N in {24,32,48,49,64} on every hex length 0..=200 plus non-hex text. Authentic tokens whose exp/nbf/iat claims carry extreme or malformed values (year 0000/9999 with extreme offsets, leap seconds, impossible dates, 100 kB strings, 1e308, deeply nested JSON) parsed at extreme simulated instants. The event lists of the other scenario families (channel faults, mis-deliveries, expectation/validator configurations, builder histories) are borrowed and judged for crash freedom only. Sampled: every proper prefix of authentic tokens of every protocol/layer, arbitrary Unicode strings, large inputs, channel-fault outputs. A case is non-trivial when the string is not an authentic token for the verifier; distinct = distinct abstract traces (sequence of (op kind, fault kind, protocol, layer, verdict class, clause)).",
     runs: |t| match t {
-        Tier::Quick => 72 + 24 + 5 + 24 + 400 + 1_100 + 800,
-        Tier::Thorough => 72 + 24 + 5 + 24 + 20_000 + 66_000 + 60_000,
+        Tier::Quick => 72 + 24 + 5 + 24 + 21 + 400 + 1_100 + 800,
+        Tier::Thorough => 72 + 24 + 5 + 24 + 21 + 20_000 + 66_000 + 60_000,
     },
     gen,
     judge: |run, obs| oracle::judge("C09", run, obs),
@@ -221,7 +221,66 @@ fn gen(ctx: &GenCtx, i: u64) -> Option<Run> {
         }
         return Some(rb.finish());
     }
-    let i4 = i3b - 24;
+    let i3c = i3b - 24;
+    // ---- block C3: a foreign issuer (own protocol code, same key) whose authentic tokens carry bytes no
+    // `&str` API can produce: the verifiers' decode step is reached with non-UTF-8 plaintext
+    if i3c < 21 {
+        const FP: [Proto; 7] = [Proto::V1L, Proto::V2L, Proto::V3L, Proto::V4L, Proto::V2P, Proto::V4P, Proto::V3P];
+        let proto = FP[(i3c % 7) as usize];
+        let mut rb = RunBuilder::new("C09", "foreign-issuer/any-bytes", ctx.verif_seed, i);
+        let key = rb.key(key_for(proto, &mut r));
+        let footer = match i3c / 7 {
+            0 => None,
+            1 => Some("kid-7".to_string()),
+            _ => Some(nonempty_text!(r, 12)),
+        };
+        let assertion = if proto.has_assertion() && i3c / 7 == 2 { Some(nonempty_text!(r, 8)) } else { None };
+        let mut vs = vec![];
+        for layer in ALL_LAYERS {
+            vs.push(rb.verifier(VerifierSpec { proto, layer, key, footer: footer.clone(), assertion: assertion.clone(), default_validators: layer == Layer::Batteries, expect: vec![], expect_via_extend: false, validators: vec![], hash_seed: r.next() }));
+        }
+        let mut payloads: Vec<Vec<u8>> = vec![
+            // sanity: well-formed payloads (the probes show that foreign tokens authenticate)
+            b"{\"data\":\"hello\"}".to_vec(),
+            b"plain text".to_vec(),
+            vec![],
+            // not UTF-8
+            vec![0xff],
+            vec![0xc3],
+            vec![0xc3, 0x28],
+            vec![0xe2, 0x82],
+            vec![0xf0, 0x9f, 0x98],
+            vec![0xed, 0xa0, 0x80],
+            vec![0xc0, 0xaf],
+            vec![0xf8, 0x88, 0x80, 0x80, 0x80],
+            vec![0x80],
+            b"{\"data\":\"\xff\"}".to_vec(),
+            b"{\"exp\":\"2999-01-01T00:00:00Z\xc3\"}".to_vec(),
+            [b"{\"a\":\"".to_vec(), vec![0xf0, 0x9f], b"\"}".to_vec()].concat(),
+            [vec![b'a'; 4095], vec![0xe4, 0xb8]].concat(),
+            [vec![0xffu8], vec![b'{'; 64]].concat(),
+            vec![0u8; 17],
+            vec![0xfe, 0xff, 0x00, 0x7b, 0x00, 0x7d],
+        ];
+        for _ in 0..12 {
+            let l = 1 + r.usize(80);
+            payloads.push(r.bytes(l));
+        }
+        for p in payloads {
+            let out = rb.msg();
+            rb.push(Op::ForeignIssue { proto, key, nonce_hex: hex::encode(r.bytes(32)), payload_hex: hex::encode(&p), footer: footer.clone(), assertion: assertion.clone(), out });
+            for v in &vs {
+                rb.deliver(out, *v, now);
+            }
+            // and a torn copy of it
+            if r.chance(1, 3) {
+                let m = rb.fault(out, FaultKind::Truncate { n: 10 + r.usize(60) }, None);
+                rb.deliver(m, vs[r.usize(3)], now);
+            }
+        }
+        return Some(rb.finish());
+    }
+    let i4 = i3c - 21;
     let n_prefix = if ctx.tier == Tier::Quick { 400 } else { 20_000 };
     // ---- block D: every proper prefix of an authentic token (torn delivery)
     if i4 < n_prefix {
